@@ -25,7 +25,12 @@ class Sched:
 
     def start(self):
         for t in self.threads.values():
-            t.thread.start()
+            # (small stacks: thousands of controlled threads come and go)
+            old = threading.stack_size(1024 * 1024)
+            try:
+                t.thread.start()
+            finally:
+                threading.stack_size(old)
             self.parked.acquire()          # wait until it parks / finishes
 
     # ----- called from controlled threads
